@@ -14,11 +14,12 @@ CFG = {
                   "what reading it yields (directory listing order is not an observable); the byte-level fixpoint of all three env "
                   "directories over 3 cycles is compared on real directories by the correspondence.",
     "shrink": [(1, ",")],
-    "exhaustive": True,
+    "exhaustive": True,  # the 6^4 family is enumerated completely; the sampled part is additional
     "rule": "exhaustive in both tiers: all 6^4 assignments of {absent, dir, file, symlink->dir, symlink->file, dangling} to "
             "bin/lib/include/pkgconfig x 3 (thorough 4) explicit environments (none; append+delimiter on PATH, override LD_LIBRARY_PATH, "
             "launch prepend CPATH; build override/launch append/process prepend on PATH, default on LD_LIBRARY_PATH; custom delimiters); each case "
             "probes apply() for 5 scopes x 2 starting envs (unset / every variable set) and runs 3 read->write cycles with env* snapshots. "
+            "plus 600 (quick) / 6 000 (thorough) sampled cases: random kinds x random explicit entries on the path variables (all behaviours, scopes incl. process types named build/launch, multi-byte delimiters); probe scopes include Process(build) and Process(launch). "
             "non-trivial = at least one of the four paths is a directory or a symlink to one; distinct = distinct input line",
     "trusted_base": ["Spec/LayerPaths.lean is my reading of the CNB layer-paths table",
                      "Gen.layerPathSpecs / Gen.pathListSeparator regenerated from layer_env.rs (incl. the is_dir guard and Prepend+Delimiter shape check)"],
